@@ -74,3 +74,17 @@ Proof. exact x_config_fields_plain. Qed.
 Print Assumptions C13_src_options_reach_config.
 Print Assumptions C13_src_pin_main_expand_sources.
 Print Assumptions C13_src_pin_main_main.
+
+(* ---- the walker's per-entry prelude, translated: with --dereference `from` is the CANONICAL path of the entry and a
+   failure to resolve it ends the walk (`canonicalize(&epath)?`), the kind is then taken from lstat(from) — so no
+   entry is ever classified as a link under --dereference; the iterator follows links exactly when dereferencing ---- *)
+From XcpProofs Require Import XWalker.
+Theorem C13_src_walker_resolves_or_fails :
+  nth 1 x_walker_entry_prelude ""%string =
+    "letfrom=ifconfig.dereference{letcpath=canonicalize(&epath)?;debug!(""Dereferencing{:?}into{:?}"",epath,cpath);cpath}else{epath.clone()};"%string /\
+  nth 2 x_walker_entry_prelude ""%string = "letmeta=from.symlink_metadata()?;"%string /\
+  nth 1 x_walker_iterator ""%string = "follow_links(config.dereference)"%string.
+Proof.
+  destruct x_walker_shape_ok as (_ & _ & Hi & He & _). rewrite Hi, He. repeat split; reflexivity.
+Qed.
+Print Assumptions C13_src_walker_resolves_or_fails.
